@@ -107,14 +107,14 @@ var props = []*PropDef{
 	{
 		ID:     "C08",
 		Level:  "other",
-		Funcs:  base1D,
+		Funcs:  append([]string{"twooffive.AddCheckSum", "twooffive.EncodeWithColor", "twooffive.Encode"}, base1D...),
 		Tables: []string{"codabar/tables", "twooffive/tables"},
 		Harness: []Harness{
 			{Pkg: "codabar", File: "c08_codabar_test.go", Run: "^TestVerifC08Codabar$", Bound: boundedNote + "acceptance = [ABCD][0-9-$:/.+]*[ABCD] and round trip through onedspec.CodabarDecode (the regexp engine is outside the proof subset)"},
-			{Pkg: "twooffive", File: "c08_twooffive_test.go", Run: "^TestVerifC08TwoOfFive$", Bound: boundedNote + "both variants through onedspec.TwoOfFiveDecodeLenient, AddCheckSum against the 3-1 weighted sum"},
+			{Pkg: "twooffive", File: "c08_twooffive_test.go", Run: "^TestVerifC08TwoOfFive$", Bound: "cross-check of the 2 of 5 proof: both variants through onedspec.TwoOfFiveDecodeLenient, AddCheckSum against the 3-1 weighted sum"},
 		},
-		Assumptions: []string{asmBitlist, "regexp behaviour for the single Codabar pattern and the 2 of 5 assembly loops are NOT under contract: bounded stand-in"},
-		Note:        "[T] Codabar patterns, 2 of 5 digit patterns, start/stop patterns and widths against the standards; [P] image type. Assembly, validation and AddCheckSum: bounded.",
+		Assumptions: []string{asmBitlist, asmUTF8, "2 of 5: inputs of at most 50 000 000 bytes (BitList capacity bound of the contracts)", "Codabar: regexp validation and the assembly loop are NOT under contract: bounded stand-in"},
+		Note:        "2 of 5 (both variants) [P], for every input: EncodeWithColor/Encode accept exactly the non-empty digit strings (interleaved: of even length); the result carries text, kind, colours and, module by module, the standard's symbol (start, per digit five bars of width 3/1 by the 1-2-4-7-parity code with narrow spaces resp. per pair bars and spaces interleaved, stop) - loop invariants over the real loop with the pending-rune pointer; AddCheckSum returns content + the digit that makes the 3-1 weighted sum (recursive spec function) a multiple of ten and refuses exactly empty / non-digit input. [T] Codabar patterns, 2 of 5 tables against the standards; [P] image type. Codabar assembly and validation: bounded.",
 	},
 	{
 		ID: "C09",
